@@ -41,9 +41,12 @@
 (*    the attempt ++ expansion (++ space if smart space applies); a longer  *)
 (*    chord in the same hold replaces the shorter expansion; a follow-up     *)
 (*    chord replaces the antecedent's expansion (and everything typed for    *)
-(*    it).  More than D ticks after the first press without activation:      *)
-(*    zippy is disabled, everything is literal until the keyboard was quiet *)
-(*    for W ticks.                                                           *)
+(*    it; a follow-up is REQUIRED to work only after "releasing all keys",   *)
+(*    in the same hold as its antecedent it is optional).  More than D ticks *)
+(*    after the first press without activation: zippy is disabled, the       *)
+(*    presses of that hold are literal; after the first release in such a    *)
+(*    hold the documentation does not say when zippy is enabled again (soft) *)
+(*    until the keyboard was quiet for more than W ticks.                    *)
 (*  - soft zone (docs silent: press exactly D ticks after the anchor, press *)
 (*    after a release inside the same hold, extra keys held, a key that can *)
 (*    not lead to a chord was pressed, chord held beyond the deadline, ...): *)
@@ -54,7 +57,11 @@
 (*    The monitor reads which one happened and continues from there.         *)
 (*  - with a shift held at activation the first character of the expansion  *)
 (*    may be upper or lower case (docs silent; the repository's tests call   *)
-(*    it "capitalize"); everything else is exact.                            *)
+(*    it "capitalize"); the same holds for an expansion that continues (same *)
+(*    first element) the preceding expansion made with a shift held;         *)
+(*    everything else is exact.                                              *)
+(*  - when the literal text and an expansion coincide the monitor cannot     *)
+(*    tell what happened and is soft for the rest of the hold.               *)
 (*  - smart space "full": a punctuation key right after an activation that   *)
 (*    added a space deletes that space.                                      *)
 (* CHECKS: T1 at quiescent points (no pending input, no character key held): *)
